@@ -260,6 +260,9 @@ def run(tier, replay=None):
     # ---- R4 leaf convention
     run_r4(chk, fns)
 
+    # ---- R5 descent guard
+    run_r5(chk, [f for f in F.functions if f['inst'] in (0, 2)])
+
     chk.assumptions += ['clang 14 parser/Sema', 'class-local call resolution by name (overloads merged)',
                         'tables/c01.json exemptions', 'throwing paths carry no obligation']
     return chk
@@ -576,3 +579,132 @@ def run_r4(chk, fns):
 def new_sib_escapes(f):
     """`new Siblings` passed straight to a recursive helper or returned: treated as attached elsewhere."""
     return False
+
+
+# ------------------------------------------------------------------ R5: no descent through children() without has_children()
+
+def _root_name(e):
+    """identifier at the root of an access path (through ->second, &x, *x, casts)"""
+    r = ir.access_root(e)
+    if r and r[0] == 'var':
+        return r[2]
+    if r and r[0] == 'this':
+        return 'this.' + str(r[1])
+    return None
+
+
+def _node_of_children_call(x):
+    """`n->second.children()` -> n ;  `st->children(sh)` -> sh"""
+    args = ir.call_args(x)
+    if args:
+        return _root_name(args[0])
+    return _root_name(ir.call_receiver(x))
+
+
+def _atoms(cond, pol, out):
+    """atomic facts implied by a branch decision"""
+    c = ir.skipcasts(cond)
+    if c is None:
+        return
+    k = c.get('k')
+    if k == 'UnaryOperator' and c.get('op') == '!':
+        _atoms(c['c'][0], not pol, out)
+        return
+    if k == 'BinaryOperator' and c.get('op') == '&&' and pol:
+        _atoms(c['c'][0], True, out)
+        _atoms(c['c'][1], True, out)
+        return
+    if k == 'BinaryOperator' and c.get('op') == '||' and not pol:
+        _atoms(c['c'][0], False, out)
+        _atoms(c['c'][1], False, out)
+        return
+    out.append((c, pol))
+
+
+def run_r5(chk, fns):
+    sites = 0
+    guarded = 0
+    for f in fns:
+        if f['name'] in ('has_children',):
+            continue
+        body = f.get('body')
+        uses = [x for x in ir.walk(body) if ir.is_call(x) and ir.call_name(x) == 'children'
+                and (ir.call_receiver(x) is not None or ir.call_args(x))]
+        if not uses:
+            continue
+        use_ids = {id(x) for x in uses}
+
+        def cl(x):
+            ev = []
+            if id(x) in use_ids:
+                ev.append('CH')
+            if ir.is_call(x) and ir.call_name(x) == 'assign_children':
+                ev.append('AC')
+            if ir.is_call(x) and ir.call_name(x) == 'has_children':
+                ev.append('HCcall')
+            t = ir.write_target(x)
+            if t is not None:
+                tt = ir.skipcasts(t)
+                if tt is not None and tt.get('k') == 'DeclRefExpr':
+                    ev.append('ASSIGN')
+            return ev
+        try:
+            ps = paths.enumerate_paths(f, cl, loop_mode='1', keep_conds=True, cap=20000)
+        except paths.TooManyPaths:
+            raise AnalysisBroken('R5: too many paths in %s' % f['name'])
+        bad = {}
+        ok_sites = set()
+        for p in ps:
+            known = set()     # root names known to have children on this path
+            for tag, node in p.events:
+                if tag == '?':
+                    c, pol, _ = node
+                    if isinstance(c, tuple):
+                        continue
+                    if c.get('k') in ('ForStmt', 'WhileStmt', 'CXXForRangeStmt', 'DoStmt', 'CXXCatchStmt',
+                                      'CaseStmt', 'DefaultStmt'):
+                        continue
+                    at = []
+                    _atoms(c, pol, at)
+                    for a, apol in at:
+                        if ir.is_call(a) and ir.call_name(a) == 'has_children' and apol:
+                            args = ir.call_args(a)
+                            if args:
+                                rn = _root_name(args[0])
+                                if rn:
+                                    known.add(rn)
+                elif tag == 'AC':
+                    r = ir.call_receiver(node)
+                    rn = _root_name(r) if r is not None else None
+                    if rn:
+                        known.add(rn)
+                elif tag == 'ASSIGN':
+                    t = ir.skipcasts(ir.write_target(node))
+                    known.discard(t.get('n'))
+                elif tag == 'CH':
+                    rn = _node_of_children_call(node)
+                    if rn in known:
+                        ok_sites.add(id(node))
+                    else:
+                        bad.setdefault(id(node), node)
+        for x in uses:
+            sites += 1
+            line = x.get('l')
+            rn = _node_of_children_call(x)
+            is_bad = id(x) in bad
+            fq = f['name'] if f.get('clsname') in (None, 'Simplex_tree') else '%s::%s' % (f['clsname'], f['name'])
+            ex = TABLE['children_unguarded_ok'].get('%s|%s' % (fq, rn))
+            if is_bad and ex is not None:
+                chk.count('R5 exempt sites')
+                continue
+            if not is_bad and id(x) not in ok_sites:
+                continue   # unreachable on every enumerated path (e.g. behind a throw)
+            guarded += 0 if is_bad else 1
+            chk.ob('R5-descent-guard', '%s: %s.children() only after has_children(%s)' % (fq, rn, rn),
+                   '%s:%s' % (rel(f['file']), line), not is_bad,
+                   '' if not is_bad else 'children() of a node is followed on a path that never established '
+                   'has_children() for it: for a leaf it points back to the node\'s own Siblings (leaf convention), '
+                   'so the search/descent restarts in the wrong place',
+                   key='R5|%s|%s' % (fq, rn))
+    chk.count('R5 children() sites', sites)
+    chk.expect_count('R5', 'guarded children() descents', guarded, 15)
